@@ -53,6 +53,7 @@ def gen(rng, tier):
 
 class C03(Prop):
     id = "C03"
+    track_states = True
     quick_runs = 2000
     thorough_runs = 40000
     assumptions = ["values are unique per task, so every result is attributable to one submission",
